@@ -99,7 +99,7 @@ func (n *nullCouplings) IO(context.Context) (chan interface{}, chan *sio.Result,
 	return n.in, n.out, nil
 }
 func (n *nullCouplings) Read(context.Context) (map[string]*crew.Machine, error) { return nil, nil }
-func (n *nullCouplings) Stop(context.Context) error                              { return nil }
+func (n *nullCouplings) Stop(context.Context) error                             { return nil }
 
 func c08Run(cs c08Case) (clause, detail string, emits int) {
 	as := c08Spec(cs)
